@@ -995,3 +995,18 @@ B('DA-resolve-iter-not-carried', ['C07', 'C11'], 'util.py', 'resolve_dtype_iter'
   'dt_resolve = resolve_dtype(dt_resolve, dt)', 'dt_resolve = resolve_dtype(dt, dt)', 'F1.loop-dtype-carried', 'resolve_dtype_iter')
 N('DA-concat-resolved-swapped-args', ['C07', 'C11'], 'util.py', 'concat_resolved',
   'dt_resolve = resolve_dtype(array.dtype, dt_resolve)', 'dt_resolve = resolve_dtype(dt_resolve, array.dtype)')
+
+# ---------------------------------------------------------------------------------- IndexLevel sibling offsets (C02 / C05)
+B('SO-level-drop-outer-old-offsets', ['C02', 'C05'], 'index_hierarchy.py', 'IndexHierarchy.level_drop',
+  '                        for t in target.targets:\n                            # offsets were relative to the parent that is being removed\n                            t.offset = offset\n                            offset += t.__len__()\n                            targets.append(t)\n',
+  '                        targets.extend(target.targets)\n', 'I.sibling-offsets-running', 'level_drop')
+B('SO-level-drop-inner-no-recompute', ['C02', 'C05'], 'index_hierarchy.py', 'IndexHierarchy.level_drop',
+  '                        for target in level.targets:\n                            target.offset = offset\n                            offset += target.__len__()\n',
+  '                        pass\n', 'I.sibling-offsets-running', 'level_drop')
+B('SO-from-index-items-offset-not-advanced', ['C02', 'C05'], 'index_hierarchy.py', 'IndexHierarchy.from_index_items',
+  '            offset += len(index)\n', '', 'I.sibling-offsets-running', 'from_index_items')
+B('SO-go-extend-offset-zero', ['C02', 'C05', 'C09'], 'index_level.py', 'IndexLevelGO.extend',
+  '                target = t.to_index_level(offset_prior, cls=self.__class__)', '                target = t.to_index_level(0, cls=self.__class__)', 'I.sibling-offsets-running', 'target_gen')
+N('SO-from-product-renamed-acc', ['C02', 'C05'], 'index_hierarchy.py', 'IndexHierarchy.from_product',
+  '            offset = 0\n            for idx, _ in enumerate(index_up):\n                # this level does not have targets, only an index (as a leaf)\n                level = cls._LEVEL_CONSTRUCTOR(index=index,\n                        offset=offset,\n                        targets=targets_previous)\n\n                targets[idx] = level\n                offset += len(level)\n',
+  '            total = 0\n            for idx, _ in enumerate(index_up):\n                level = cls._LEVEL_CONSTRUCTOR(index=index,\n                        offset=total,\n                        targets=targets_previous)\n\n                targets[idx] = level\n                total += level.__len__()\n')
